@@ -217,6 +217,35 @@ fn mutate_rnd(ctx: &RunCtx, sq: &Square, ns: &Namespace, r: u16, honest: &RowNam
     (raw, family)
 }
 
+/// For a row whose committed root range does not cover the namespace there is nothing honest to
+/// send; a lying peer can still fabricate shares of the namespace and attach a proof that is
+/// *typed* as an absence proof (nmt-rs returns early for a namespace outside the root's range).
+fn forged_rnd_for_uncovered_row(ctx: &RunCtx, sq: &Square, ns: &Namespace, r: u16) -> Option<(RawRnd, &'static str)> {
+    let donor = (0..sq.width()).filter_map(|c| sq.eds.share(r % (sq.width() / 2).max(1), c).ok()).find(|s| !s.is_parity())?;
+    let n = 1 + ctx.choose("rnd.forged_shares", 3) as usize;
+    let shares: Vec<RawShare> = (0..n)
+        .map(|_| {
+            let mut d = donor.to_vec();
+            d[..29].copy_from_slice(ns.as_bytes());
+            RawShare { data: d }
+        })
+        .collect();
+    let mut leaf_hash = Vec::with_capacity(90);
+    leaf_hash.extend_from_slice(ns.as_bytes());
+    leaf_hash.extend_from_slice(ns.as_bytes());
+    leaf_hash.extend_from_slice(&[0x5a; 32]);
+    let with_nodes = ctx.coin("rnd.forged_nodes", 400);
+    let nodes = if with_nodes { vec![leaf_hash.clone()] } else { vec![] };
+    let proof = celestia_proto::proof::pb::Proof {
+        start: ctx.choose("rnd.forged_start", 3) as i64,
+        end: 1 + ctx.choose("rnd.forged_end", 3) as i64,
+        nodes,
+        leaf_hash,
+        is_max_namespace_ignored: true,
+    };
+    Some((RawRnd { shares, proof: Some(proof) }, "fabricated_shares_with_absence_typed_proof"))
+}
+
 async fn run_shwap(ctx: &Arc<RunCtx>) {
     let thorough = ctx.tier == Tier::Thorough;
     let chain = DataChain::cached(DataChainParams {
@@ -314,8 +343,15 @@ async fn run_shwap(ctx: &Arc<RunCtx>) {
                 plan.push(false);
                 for byz in plan {
                     tokio::time::sleep(ctx.delay("net.delay", 500)).await;
-                    let Some(honest_d) = &honest else { break };
-                    let (raw, family) = if byz { mutate_rnd(ctx, &sq, &ns, r, honest_d, &all_rows) } else { (RawRnd::from(honest_d.clone()), "honest") };
+                    let (raw, family) = match (&honest, byz) {
+                        (Some(honest_d), true) => mutate_rnd(ctx, &sq, &ns, r, honest_d, &all_rows),
+                        (Some(honest_d), false) => (RawRnd::from(honest_d.clone()), "honest"),
+                        (None, true) => match forged_rnd_for_uncovered_row(ctx, &sq, &ns, r) {
+                            Some(x) => x,
+                            None => break,
+                        },
+                        (None, false) => break,
+                    };
                     if byz { ctx.fault(family); }
                     let bytes = rnd_block(&cid, &raw);
                     let (s, b2) = (store.clone(), bytes.clone());
@@ -325,6 +361,15 @@ async fn run_shwap(ctx: &Arc<RunCtx>) {
                         continue;
                     };
                     ctx.ev_with("bitswap.hash", h, res.is_ok() as u64, || format!("rnd row {r} ns {ns_kind} {family} -> {:?}", res.as_ref().map(|_| "ok")));
+                    // C10 on the namespace-data path: a block for a row whose root range does not
+                    // cover the namespace can not verify against the DAH, whatever it carries
+                    if honest.is_none() {
+                        ctx.oracle("C10.label");
+                        if res.is_ok() {
+                            ctx.violation("C10", "label", family,
+                                format!("the multihasher accepted a {family} block for row {r} ({ns_kind} namespace) of height {h}, whose committed root range does not cover the namespace"));
+                        }
+                    }
                     ctx.oracle("C06.own_data_verifies");
                     if !byz && res.is_err() {
                         ctx.violation("C06", "own_data_verifies", ns_kind,
